@@ -128,13 +128,21 @@ def judge(part, case, resps, ctx):
             return exact, abs(exact) * orc.F64_REL
         E = orc.Err
         r = E(s_den) / E(s_num) if s_den != s_num else E(1)          # 1[den unit] in num unit
+        # every straightforward evaluation order of mult * num / (r * den)
         o1 = ((E(num_amt) / r) / E(den_amt)) * E(mult)
         o2 = (E(num_amt) * E(s_num) * E(mult)) / (E(den_amt) * E(s_den))
-        return exact, max(o1.tol(), o2.tol())
+        o3 = ((E(num_amt) / r) * E(mult)) / E(den_amt)
+        o4 = (E(num_amt) * E(mult)) / (r * E(den_amt))
+        o5 = (E(num_amt) / (r * E(den_amt))) * E(mult)
+        return exact, max(o.tol() for o in (o1, o2, o3, o4, o5))
     # rate * q and q * rate
     exp_rq, tol_rq = tol_for(qa, s_qu, pm, s_pu, ta)
+    rq_in_range = b != "dec" or (orc.in_box_value(exp_rq) and orc.in_box_value(qa * s_qu / s_pu) and orc.in_box_value(qa * s_qu / s_pu / pm))
     for form, offered in (("rq", True), ("qr", offered_qr)):
         res = r1[form]
+        if not rq_in_range:
+            part.count("result_outside_decimal_range")
+            continue
         if res is None:
             if offered:
                 viol("missing_op", "operator form %s does not exist" % form)
@@ -152,15 +160,19 @@ def judge(part, case, resps, ctx):
         part.ratio(ratio, {"backend": b, "form": form, "case": {k: case[k] for k in ("tq", "pq", "ta", "tu", "pm", "pu", "q", "qu")}})
         if ratio > 1:
             viol("value_" + form, "%s = %s, expected term amount x (value / per value) = %.17g; err/tol=%.3g" % (form, res["a"], float(exp_rq), float(ratio)))
-    if r1["rq"] and r1["qr"] and "a" in r1["rq"] and "a" in r1["qr"] and r1["rq"]["a"] != r1["qr"]["a"]:
+    if rq_in_range and r1["rq"] and r1["qr"] and "a" in r1["rq"] and "a" in r1["qr"] and r1["rq"]["a"] != r1["qr"]["a"]:
         # both orders are the same computation up to rounding
         d = abs(frac_of(r1["rq"]["a"], b) - frac_of(r1["qr"]["a"], b))
         if d > 2 * tol_rq:
             viol("order", "rate*q = %s but q*rate = %s" % (r1["rq"]["a"], r1["qr"]["a"]))
     # t / rate and reciprocal * t
     exp_td, tol_td = tol_for(tamt, s_tqu, ta, s_tu, pm)
+    td_in_range = b != "dec" or (orc.in_box_value(exp_td) and orc.in_box_value(tamt * s_tqu / s_tu) and orc.in_box_value(tamt * s_tqu / s_tu / ta))
     for form, offered in (("tdr", offered_tdr), ("rect", True)):
         res = r1[form]
+        if not td_in_range:
+            part.count("result_outside_decimal_range")
+            continue
         if res is None:
             if offered:
                 viol("missing_op", "operator form %s does not exist" % form)
@@ -178,6 +190,8 @@ def judge(part, case, resps, ctx):
             viol("value_" + form, "%s = %s, expected per amount x (value / term value) = %.17g; err/tol=%.3g" % (form, res["a"], float(exp_td), float(ratio)))
     # (rate * q) / rate ~ q in the per unit
     back = r1["back"]
+    if not rq_in_range:
+        back = None
     if back is not None and offered_tdr and "a" in back:
         exact = qa * s_qu / s_pu
         if b == "f64":
